@@ -495,6 +495,25 @@ static void *free_units_pt(void *arg)
     return NULL;
 }
 
+static int c_tk_ext_free;
+typedef struct {
+    ABT_thread *th;
+    int n;
+} tkfree_t;
+static void tk_fn(void *arg)
+{
+    __atomic_fetch_add((int *)arg, 1, __ATOMIC_SEQ_CST);
+}
+static void *tk_free_pt(void *arg)
+{
+    tkfree_t *t = (tkfree_t *)arg;
+    for (int i = 0; i < t->n; i++) {
+        int rc = ABT_thread_free(&t->th[i]);
+        if (rc != ABT_SUCCESS)
+            vrt_violation("mem:free-failed", "ABT_thread_free of a tasklet from an external thread returned %d", rc);
+    }
+    return NULL;
+}
 static size_t pick_size(vrt_rng *r, size_t minsz)
 {
     static const int deltas[] = { 0, 1, 8, 63, 64, 4095, -1, -8, -63, 24, 40 };
@@ -567,6 +586,25 @@ static void run_stacks(vrt_rng *r, int scen)
                 if (u->req % 64)
                     vrt_count(c_not64, 1);
             }
+        }
+        /* tasklet descriptors created on the streams and released by an
+         * external thread go back to the descriptor pool, not anywhere else:
+         * the ULTs created afterwards get proper stacks (checked below) */
+        if (vrt_range(r, 2)) {
+            int ntk = 40 + (int)vrt_range(r, 260);
+            static ABT_thread tk[300];
+            static int tk_ran;
+            tk_ran = 0;
+            for (int i = 0; i < ntk; i++)
+                VRT_ABT(ABT_task_create(pools[i % nes], tk_fn, &tk_ran, &tk[i]));
+            for (int i = 0; i < ntk; i++)
+                VRT_ABT(ABT_thread_join(tk[i]));
+            VRT_CHECK(tk_ran == ntk, "mem:tasklets-ran", "%d of %d tasklets ran", tk_ran, ntk);
+            tkfree_t tf = { tk, ntk };
+            pthread_t tp;
+            pthread_create(&tp, NULL, tk_free_pt, &tf);
+            pthread_join(tp, NULL);
+            vrt_count(c_tk_ext_free, (uint64_t)ntk);
         }
         /* creators: primary ULT, ULTs on other streams, external threads */
         int ncre = 1 + (int)vrt_range(r, 4);
@@ -696,6 +734,7 @@ int main(int argc, char **argv)
     c_odd_stack = vrt_counter("ults_sized_stack");
     c_user_stack = vrt_counter("ults_user_stack");
     c_not64 = vrt_counter("stack_sizes_not_multiple_of_64");
+    c_tk_ext_free = vrt_counter("tasklets_created_on_streams_freed_by_external_thread");
     c_ext_created = vrt_counter("ults_created_by_external_thread");
     c_cross_free = vrt_counter("ults_freed_by_other_kind_of_context");
     c_stack_bytes = vrt_counter("stack_bytes_written_and_verified");
